@@ -52,13 +52,32 @@ def run(sc, tier, seed):
     val4 = V.validate_traces(sc, "Topics", "TopicsTraceMC.tla", "TopicsAggTrace.cfg", meta4["trace_files"], parallel=4)
     R.states += val4["states"]
     R.handle_validation(val4)
+    # a publish handler with two target topics on a persisting service whose store refuses writes for a while
+    out9, meta9 = V.run_driver(sc, "c09full", tier, seed, timeout=600)
+    R.add_meta(meta9)
+    val9 = V.validate_traces(sc, "Topics", "TopicsTraceMC.tla", "TopicsFullTrace.cfg", meta9["trace_files"], parallel=2)
+    R.states += val9["states"]
+    R.handle_validation(val9)
     return R.finish("model_checking", ASSUME)
 
 
 def replay(sc, path):
     import os
     seg = os.path.join(path, "segment.ndjson")
-    val = V.validate_traces(sc, "Topics", "TopicsTraceMC.tla", "TopicsTrace.cfg", [seg])
+    text = open(seg).read()
+    # the configuration the segment was recorded under: gate-stepped publishers, free-running publishers, aggregate
+    # handler, three topics - else the plain one
+    if '"ev":"Upd"' in text or '"ev":"Enq"' in text:
+        cfg = "TopicsConcTrace.cfg"
+    elif '"ev":"Start"' in text:
+        cfg = "TopicsFullTrace.cfg" if '"t3"' in text else "TopicsFreeTrace.cfg"
+    elif '"kind":"agg"' in text:
+        cfg = "TopicsAggTrace.cfg"
+    elif '"t3"' in text:
+        cfg = "TopicsFullTrace.cfg"
+    else:
+        cfg = "TopicsTrace.cfg"
+    val = V.validate_traces(sc, "Topics", "TopicsTraceMC.tla", cfg, [seg])
     if val["accepted"]:
         print("replay: segment is accepted by the current specification")
         return 0
